@@ -701,7 +701,8 @@ def C15(ctx):
     for m, info in rej:
         ctx.violation("path-rejected", progs[m["prog"]], {"bound": m["bound"], **info}, {})
     enginecheck.run_engine(ctx, ["ExploreMC_small_b1.cfg", "ExploreMC_hash_b0.cfg", "ExploreMC_hash_b1.cfg", "ExploreMC_hash_b2.cfg"])
-    dpor_space(ctx, [0, 1, 2, 3, 16, None], ("C15",), quick_sample=60)
+    # (six complete explorations per program: the bigger spaces of the thorough tier are C01's, with one bound)
+    dpor_space(ctx, [0, 1, 2, 3, 16, None], ("C15",), quick_sample=60, thorough_sample=500, spaces=DPOR_SPACES_QUICK)
     # straight-line programs with yield_now (found by TLC on Dpor.tla with the "yield" block kind): result sets only
     ys = [dsl.normalize(q) for q in [
         families.P("yield-then-store", [dsl.spawn(2), dsl.spawn(3), dsl.join(2), dsl.join(3)], [dsl.ld("x", "sc"), dsl.ld("y", "sc")],
